@@ -91,6 +91,47 @@ func c15Bytes(system, format string) ([]byte, error) {
 	return c15Files[k], nil
 }
 
+var (
+	c15ProofMu sync.Mutex
+	c15Proofs  = map[string][2]string{}
+)
+
+// c15ValidProof: proof JSON (rendered by the harness) and hex input hash of a valid all-padding
+// deletion / empty-tree insertion at (1,1) under the system whose file is being cut.
+func c15ValidProof(mode string) ([]byte, string, error) {
+	c15ProofMu.Lock()
+	defer c15ProofMu.Unlock()
+	if p, ok := c15Proofs[mode]; ok {
+		return []byte(p[0]), p[1], nil
+	}
+	ps, err := getSystem(mode, 1, 1, 0)
+	if err != nil {
+		return nil, "", err
+	}
+	var pr *prover.Proof
+	var hash string
+	if mode == "deletion" {
+		bt := validDelBatches(1, 1)[2]
+		pr, err = ps.ProveDeletion(bt.params())
+		hash = "0x" + bigs(bt.Hash).Text(16)
+	} else {
+		bt := validInsBatches(1, 1)[0]
+		pr, err = ps.ProveInsertion(bt.params())
+		hash = "0x" + bigs(bt.Hash).Text(16)
+	}
+	if err != nil {
+		return nil, "", err
+	}
+	co, err := proofCoords(pr.Proof)
+	if err != nil {
+		return nil, "", err
+	}
+	hx := func(i int) string { return "0x" + co[i].Text(16) }
+	js, _ := json.Marshal(map[string]any{"ar": []string{hx(0), hx(1)}, "bs": [][]string{{hx(2), hx(3)}, {hx(4), hx(5)}}, "krs": []string{hx(6), hx(7)}})
+	c15Proofs[mode] = [2]string{string(js), hash}
+	return js, hash, nil
+}
+
 func init() {
 	Registry["C15"] = func() {
 		ev.Main("C15", "fault_enumeration", 240*time.Second, 40*time.Minute, c15Body, func(c *ev.Ctx, raw json.RawMessage) {
@@ -196,8 +237,13 @@ func c15Eval(cs *c15Case) (string, error) {
 			args = []string{"prove", "--mode", "deletion", "--keys-file", path}
 			stdin = []byte(`{"inputHash":"0x0","deletionIndices":[2],"preRoot":"0x1","postRoot":"0x1","identityCommitments":["0x0"],"merkleProofs":[["0x0"]]}`)
 		case "verify":
-			args = []string{"verify", "--mode", "deletion", "--keys-file", path, "--input-hash", "0x1"}
-			stdin = []byte(`{"ar":["0x1","0x2"],"bs":[["0x1","0x2"],["0x1","0x2"]],"krs":["0x1","0x2"]}`)
+			// a VALID proof with its own input hash: the only thing wrong is the keys file
+			pj, h, err := c15ValidProof(cs.System)
+			if err != nil {
+				return "", err
+			}
+			args = []string{"verify", "--mode", cs.System, "--keys-file", path, "--input-hash", h}
+			stdin = pj
 		case "export-solidity":
 			args = []string{"export-solidity", "--keys-file", path, "--output", outp}
 		case "convert-to-raw":
@@ -212,6 +258,9 @@ func c15Eval(cs *c15Case) (string, error) {
 		}
 		if res.Exit == 0 {
 			return fmt.Sprintf("`%s` exits 0 with %s", cmd, where), nil
+		}
+		if bytes.Contains(res.Stderr, []byte("panic:")) || bytes.Contains(res.Stderr, []byte("goroutine 1 [running]")) {
+			return fmt.Sprintf("`%s` panics with %s: %.200s", cmd, where, res.Stderr[bytes.Index(res.Stderr, []byte("panic")):]), nil
 		}
 		if cmd == "convert-to-raw" {
 			if _, e := prover.ReadSystemFromFile(outp); e == nil {
@@ -339,7 +388,7 @@ func c15Body(c *ev.Ctx) {
 				cases = append(cases, c15Case{sname, f, k, "file"})
 				if sname == "deletion" && (f == "raw" || !quick) {
 					for _, cmd := range []string{"start", "prove", "verify", "export-solidity", "convert-to-raw"} {
-						if quick && (cmd == "verify" || cmd == "export-solidity") && k != L-1 {
+						if quick && cmd == "export-solidity" && k != L-1 {
 							continue
 						}
 						cliCuts = append(cliCuts, c15Case{sname, f, k, "cli-" + cmd})
